@@ -100,6 +100,13 @@ def closed(t=None):
     add("shadow: ct(cond(n<f, u_i, v_i),(i))[1]", C.Indexed(C.ComponentTensor(conditional(lt(n_, f), u[i], v[i]), MI((i,))), MI((FixedIndex(1),))))
     add("shadow: ct(n*u_i,(i))[0]", C.Indexed(C.ComponentTensor(C.Product(n_, u[i]), MI((i,))), MI((FixedIndex(0),))))
     add("shadow: sum_ij (A_ij/(1+tr))*(A_ij/(1+tr)), tr = A_ii", (A[i, j] / (1 + A[i, i])) * (A[i, j] / (1 + A[i, i])))
+    # two different component tensors whose bodies share a sub-expression that binds an index, both indexed by that bound index
+    # (whatever an algorithm remembers about the first body must not be assumed of the second)
+    S_i = A[i, k] * u[k]                       # sum over k, free i
+    ctf, ctg = C.ComponentTensor(f * S_i, MultiIndex((i,))), C.ComponentTensor(g * S_i, MultiIndex((i,)))
+    add("two cts sharing a body that binds k, both indexed by k", C.Indexed(ctf, MultiIndex((k,))) * v[k] + C.Indexed(ctg, MultiIndex((k,))) * v[k])
+    add("two cts sharing a body that binds k, fixed and k", C.Indexed(ctf, MultiIndex((FixedIndex(1),))) + C.Indexed(ctg, MultiIndex((k,))) * v[k])
+    add("same shared body under a ct and bare", C.Indexed(ctf, MultiIndex((k,))) * v[k] + S_i * v[i])
     # a Zero that carries the component tensor's own index (0*u_i in one branch), the tensor indexed by a fixed / free / summed index
     zct = as_tensor(conditional(lt(f, g), 0 * u[i], u[i]), (i,))
     add("zero_i inside a ct, fixed index", zct[0])
